@@ -27,7 +27,7 @@ uint32_t g_i, g_j;
 #endif
 #define VF_C_MH_INIT                                                                                         \
         __CPROVER_requires(ctx == NULL || __CPROVER_is_fresh(ctx, sizeof(*ctx)))                             \
-        __CPROVER_requires(g_i < 16u && g_j < VF_MH_W))                                                       \
+        __CPROVER_requires(g_i < 16u && g_j < VF_MH_W)                                                        \
         __CPROVER_assigns(ctx != NULL : __CPROVER_object_whole(ctx))                                         \
         __CPROVER_ensures((ctx == NULL) == (__CPROVER_return_value != 0))                                    \
         __CPROVER_ensures(ctx == NULL ==> __CPROVER_return_value == VF_MH_ERR_NULL)                          \
